@@ -6,7 +6,9 @@
 (*           {"e": "Refine", "ref", "rev", "pos": refined peak position, "index"} |                                *)
 (*           {"e": "Row", "ref", "rev", "index", "conf": confRank, "has": BOOLEAN} |                               *)
 (*           {"e": "Cands", "n": number of rows in the message}],                                                  *)
-(*    "res": {"has": BOOLEAN, "conf": confRank}}   what the coordinator returned for the task (after its filter)   *)
+(*    "res": {"has": BOOLEAN, "conf": confRank},   what the coordinator returned for the task (after its filter)   *)
+(*    "rebuilt": BOOLEAN}  TRUE = the coordinator dispatched fewer than 2 x references primary correlations; the   *)
+(*                         Primary events were then computed with the real getInitialAlignment outside it          *)
 (* Scores and confidences are replaced by their ranks among the task's values (order and equality are all that the *)
 (* clauses use).  An event that no enabled action of the specification can take ends the replay with a named       *)
 (* clause instead of blocking it.                                                                                  *)
@@ -40,9 +42,10 @@ TraceRefine ==
            same == Cur.ref = p.ref /\ Cur.rev = p.rev /\ Cur.pos = p.pos
            alt == \E j \in 1..Len(prim) : prim[j].score = p.score /\ Cur.ref = prim[j].ref /\ Cur.rev = prim[j].rev
                                          /\ Cur.pos = prim[j].pos
-       IN /\ failed' = failed \cup (IF same \/ alt THEN {} ELSE {"C16:refined_seed_is_not_the_next_highest_primary_peak"})
+       IN /\ failed' = failed
           /\ drift' = drift \cup (IF Cur.index = ri THEN {} ELSE {"refinement_index_out_of_sequence"})
-                            \cup (IF same THEN {} ELSE {"tie_between_seeds_broken_otherwise"})
+                            \cup (IF same THEN {} ELSE IF alt THEN {"tie_between_seeds_broken_otherwise"}
+                                  ELSE {"refined_seed_is_not_the_next_selected_peak"})
     /\ Consume /\ UNCHANGED t
 TraceRefineDone == /\ ~IsEvent("Refine") /\ RefineDone /\ UNCHANGED <<t, l, failed, drift>>
 TraceNoCandidates == /\ ~More /\ (NoCandidates \/ Abort_EmptySelection) /\ UNCHANGED <<t, l, failed, drift>>
@@ -62,28 +65,50 @@ Spec == TraceCorrelate \/ TraceSelect \/ TraceRefine \/ TraceRefineDone \/ Trace
 \* the log and the specification part ways: which clause that is depends on where
 Stuck ==
     /\ pc \notin {"done", "aborted", "stuck", "reported"} /\ ~ENABLED Spec
-    /\ failed' = failed \cup
-         (IF pc = "refine" /\ ri < Len(selected) /\ ~IsEvent("Refine")
-          THEN {"C16:a_seed_among_the_peaksCount_highest_is_not_refined"}
-          ELSE IF pc \in {"refine", "candidates"} /\ IsEvent("Refine")
-          THEN {"C16:more_seeds_refined_than_the_peaksCount_highest"}
-          ELSE {})
+    /\ failed' = failed
     /\ drift' = drift \cup {"log_leaves_the_specification_at_" \o pc \o (IF More THEN "_on_" \o Cur.e ELSE "_at_its_end")}
     /\ pc' = "stuck" /\ UNCHANGED <<par, ci, prim, selected, ri, cands, multi, best, result, t, l>>
 
+\* The property clauses are evaluated on the WHOLE log, whatever the order of the messages (the order is the
+\* implementation's business and is judged by the replay, as drift): C16 - the seeds that were refined are the peaksCount
+\* highest-scoring peaks of all primary correlations, in descending order; C05 - at most peaksCount candidates, the
+\* returned row is a most confident one.
+AllPrim == LET prs == SelectSeq(Ev, LAMBDA e : e.e = "Primary")
+               RECURSIVE Flat(_)
+               Flat(k) == IF k > Len(prs) THEN <<>>
+                          ELSE [j \in 1..Len(prs[k].peaks) |-> [ref |-> prs[k].ref, rev |-> prs[k].rev, pos |-> prs[k].peaks[j][1],
+                                                                score |-> prs[k].peaks[j][2]]] \o Flat(k + 1)
+           IN Flat(1)
+Refined == SelectSeq(Ev, LAMBDA e : e.e = "Refine")
+RowsSeen == SelectSeq(Ev, LAMBDA e : e.e = "Row")
+ScoreOf(P, r) == LET m == {j \in 1..Len(P) : P[j].ref = r.ref /\ P[j].rev = r.rev /\ P[j].pos = r.pos}
+                 IN IF m = {} THEN -1 ELSE P[CHOOSE j \in m : TRUE].score
+C16_Log_Failed ==
+    LET P == AllPrim
+        R == Refined
+        top == TopN(P, PeaksCount)
+    IN (IF \A i \in 1..Len(R) : ScoreOf(P, R[i]) # -1 THEN {} ELSE {"C16:refined_seed_is_no_primary_peak_of_the_query"})
+       \cup (IF Len(R) = Len(top) THEN {}
+             ELSE IF Len(R) < Len(top) THEN {"C16:a_seed_among_the_peaksCount_highest_is_not_refined"}
+             ELSE {"C16:more_seeds_refined_than_the_peaksCount_highest"})
+       \cup (IF \A i \in 1..Len(R) : i <= Len(top) => (ScoreOf(P, R[i]) = -1 \/ ScoreOf(P, R[i]) = P[top[i]].score) THEN {}
+             ELSE {"C16:refined_seeds_are_not_the_highest_primary_peaks_in_descending_order"})
+       \cup (IF \A i, j \in 1..Len(R) : i < j => ~(R[i].ref = R[j].ref /\ R[i].rev = R[j].rev /\ R[i].pos = R[j].pos) THEN {}
+             ELSE {"C16:a_seed_is_refined_twice"})
+C05_Log_Failed ==
+    LET res == Traces[t].res
+        W == RowsSeen
+        mx == IF Len(W) = 0 THEN 0 ELSE CHOOSE c \in {W[i].conf : i \in 1..Len(W)} : \A i \in 1..Len(W) : W[i].conf <= c
+    IN (IF Len(W) <= PeaksCount THEN {} ELSE {"C05:more_candidates_than_peaksCount"})
+       \cup (IF res.has /\ (Len(W) = 0 \/ res.conf # mx) THEN {"C05:returned_row_is_not_a_most_confident_candidate"} ELSE {})
+       \cup (IF ~res.has /\ Len(W) > 0 /\ \A i \in 1..Len(W) : (W[i].conf = mx => W[i].has)
+             THEN {"C05:most_confident_candidate_has_pairs_but_no_row_was_returned"} ELSE {})
+
 Verdict ==
     LET res == Traces[t].res
-        f2 == IF pc # "done" THEN {}
-              ELSE (IF res.has /\ result = "row" /\ res.conf # cands[best].conf
-                    THEN {"C05:returned_row_is_not_a_most_confident_candidate"} ELSE {})
-                   \cup (IF res.has /\ result # "row"
-                         THEN (IF cands # <<>> /\ \E j \in 1..Len(cands) : cands[j].conf = res.conf /\ cands[j].hasPairs
-                                                                          /\ \A i \in 1..Len(cands) : cands[i].conf <= res.conf
-                               THEN {} ELSE {"C05:returned_row_is_not_a_most_confident_candidate"}) ELSE {})
-                   \cup (IF ~res.has /\ result = "row" /\ \A j \in 1..Len(cands) : (j # best => cands[j].conf < cands[best].conf)
-                         THEN {"C05:most_confident_candidate_has_pairs_but_no_row_was_returned"} ELSE {})
-                   \cup (IF Len(cands) <= PeaksCount THEN {} ELSE {"C05:more_candidates_than_peaksCount"})
-        d2 == IF pc = "aborted" THEN {"spec_aborts"} ELSE {}
+        f2 == C16_Log_Failed \cup C05_Log_Failed
+        d2 == (IF pc = "aborted" THEN {"spec_aborts"} ELSE {})
+              \cup (IF Traces[t].rebuilt THEN {"not_every_primary_correlation_was_dispatched"} ELSE {})
         kinds == {pc} \cup (IF selected = <<>> THEN {"no_seed"} ELSE {})
                  \cup (IF Len(prim) > PeaksCount THEN {"cut"} ELSE {})
                  \cup (IF \E a, b \in 1..Len(prim) : a # b /\ prim[a].score = prim[b].score THEN {"tied_scores"} ELSE {})
